@@ -1,7 +1,11 @@
 (* Tie_C14.v — static tie (T) for C14.  Compiled on every run of ./check C14 against
-   GTgen.MapRangeGen, the list of every `range` over a map-typed expression in the generator
-   packages (gsort/gen, genum/gen, gerror/gen, gencommon; tests excluded), regenerated from the
-   current tree by harness/cmd/xlate_maprange (go/types through go/packages).
+   GTgen.MapRangeGen, the list of every source of map iteration order in the generator packages
+   (gsort/gen, genum/gen, gerror/gen, gencommon; tests excluded), regenerated from the current
+   tree by harness/cmd/xlate_maprange (go/types through go/packages): every `range` over a
+   map-typed expression, every call of maps.Keys / maps.Values / maps.All, and every call of a
+   function or method of gtools/set that itself iterates a map and returns something (Set.Slice,
+   ...; found by scanning that package, not listed by hand).  Today there are only `range`
+   statements; a row for a call would read (pkg, file, function, "call <fun>", callee).
 
    `expected` is the set of map ranges the GenDet model accounts for.  Go randomises the order
    of each of them; the model (GenDetModel.v) takes that order as an argument and Props/C14.v
